@@ -659,7 +659,6 @@ func (k *keepCtx) evalBool(fn *ssa.Function, index *ssa.Parameter, first, n, idx
 	return false, "evaluation did not terminate"
 }
 
-
 // freshPlaceholderKeepsLabel: v is a fresh LogEntry whose Index is the index argument (or the Index of the entry it
 // replaces) and whose Term is the Term of the entry it replaces (element 0 of the kept slice, or entries[index-first]).
 func (k *keepCtx) freshPlaceholderKeepsLabel(v ssa.Value, kept ssa.Value, index *ssa.Parameter) bool {
